@@ -754,7 +754,19 @@ func (g *genCtx) producer(kind string, v float64, d int) (string, bool) {
 			case negZero(v):
 				return g.pick2("(-false)", "(-null)", `(-"")`, "(-[])"), true
 			case nan:
-				return g.pick2("(+undefined)", "(+{})", `(+"x")`, "Number(undefined)", "(undefined*1)", "(0/0)", "Number.NaN", "(+[1,2])"), true
+				return g.pick2("(+undefined)", "(+{})", `(+"x")`, "Number(undefined)", "(undefined*1)", "(0/0)", "Number.NaN", "(+[1,2])",
+					// NaNs with other bit patterns, read back from memory: there is only one NaN value in the language
+					"new Float64Array(new Uint8Array([0,0,0,0,0,0,0xf8,0x7f]).buffer)[0]",
+					"new Float64Array(new Uint8Array([0,0,0,0,0,0,0xf8,0xff]).buffer)[0]",
+					"new Float64Array(new Uint8Array([1,0,0,0,0,0,0xf0,0x7f]).buffer)[0]",
+					"new Float64Array(new Uint8Array([0xff,0xff,0xff,0xff,0xff,0xff,0xff,0x7f]).buffer)[0]",
+					"new DataView(new Uint8Array([0x7f,0xf8,0,0,0,0,0,0]).buffer).getFloat64(0)",
+					"new DataView(new Uint8Array([0xff,0xf0,0,0,0,0,0,1]).buffer).getFloat64(0)",
+					"new Float32Array(new Uint8Array([0,0,0xc0,0xff]).buffer)[0]",
+					"new Float32Array(new Uint8Array([1,0,0x80,0x7f]).buffer)[0]",
+					"new DataView(new Uint8Array([0x7f,0xc0,0,1]).buffer).getFloat32(0)",
+					"(function(){var f=new Float64Array(1);new BigUint64Array(f.buffer)[0]=0x7ff8000000000000n;return f[0]})()",
+					"(function(){var f=new Float64Array(2);new Uint32Array(f.buffer)[3]=0xfff80000;return f.at(1)})()"), true
 			}
 		case 4:
 			if isInt(v) && v >= 1 && v <= 28 {
